@@ -14,8 +14,13 @@ import (
 //  (2) after the enclosing transaction rolled back, the database and all
 //      observations are those from before the operation;
 //  (3) retrying without the fault gives the fault-free result.
-func zzC10(defs []zzTxDef, pre int) {
+func zzC10(defs []zzTxDef, pre int) { zzC10P(defs, nil, pre) }
+
+// zzC10P: the first events of the pre-state history are fixed.
+func zzC10P(defs []zzTxDef, forced []int, pre int) {
 	w := zzNewWorld(defs)
+	w.forced = forced
+	pre += len(forced)
 	for s := 0; s < pre; s++ {
 		if !w.step(s > 0) {
 			verifrt.Assume(false)
@@ -79,3 +84,7 @@ func ZzC10U4P2() { zzC10(zzU4(), 2) }
 func ZzC10U3P3() { zzC10(zzU3(), 3) }
 func ZzC10U4P3() { zzC10(zzU4(), 3) }
 func ZzC10U1P3() { zzC10(zzU1(), 3) }
+
+// pre-state: A confirmed, B and its conflicting replacement B' both
+// unconfirmed (two unconfirmed spenders of one outpoint)
+func ZzC10U9P3() { zzC10P(zzU9(), zzU9Preamble(), 0) }
